@@ -45,141 +45,178 @@ def check(run):
         'and reachable panic-capable sites')
 
 
+def _split_args(s):
+    """top-level comma split of an argument list string"""
+    out, d, cur = [], 0, []
+    for ch in s:
+        if ch in '([{':
+            d += 1
+        elif ch in ')]}':
+            d -= 1
+        if ch == ',' and d == 0:
+            out.append(''.join(cur).strip())
+            cur = []
+        else:
+            cur.append(ch)
+    out.append(''.join(cur).strip())
+    return out
+
+
+_CLIPPED = re.compile(r'(?:v1::)?Ok\(Box::new\(self\.iter_cast\(\)\.vclip\((.+)\)\)\)$')
+_PLAIN = re.compile(r'(?:v1::)?Ok\(Box::new\(self\.iter_cast\(\)\)\)$')
+
+
 def winsorize(run, F):
+    from algebra import parse_poly, defs_of
     fn = F.one('MapValidFinal::winsorize')
-    m = [x for x in walk(fn.hir) if x.get('k') == 'Match' and src(peel(x['ch'][0])) == 'method']
-    if len(m) != 1:
-        run.ob('WIN.clip', fn, 'dispatch on method', False, fn.loc(), '%d match(es)' % len(m))
-        return
-    arms = {dtree.pat_src(a['pat']).split('::')[-1]: a['body'] for a in m[0]['arms']}
-    run.ob('WIN.clip', fn, 'three methods', set(arms) == {'Quantile', 'Median', 'Sigma'}, fn.loc(),
-           'arms %s' % sorted(arms))
-    for name, body in arms.items():
-        t = dtree.table(body, N.self_env(fn))
-        leaves = {l for cs, l, ef in t}
-        ok = all(re.fullmatch(r'(v1::)?Ok\(Box::new\(self\.iter_cast\(\)(\.vclip\(.+, .+\))?\)\)', l) or
-                 l.endswith('?') for l in leaves)
-        clipped = [l for l in leaves if '.vclip(' in l]
-        run.ob('WIN.clip', fn, '%s arm returns the clipped f64 view' % name, ok and len(clipped) >= 1,
-               loc(body), 'leaves %s' % sorted(leaves))
-        # bounds
-        env = Env()
-        mn = mx = None
-        for x in walk(body):
-            if x.get('k') == 'Block':
-                e2 = Env()
-                read_block(x, e2)
-                for s in x.get('stmts', []):
-                    if s['k'] == 'Let' and s['pat'].get('k') == 'Binding' and 'init' in s:
-                        if s['pat']['name'] == 'min':
-                            e3 = Env()
-                            read_block({'stmts': x['stmts'][:x['stmts'].index(s)]}, e3)
-                            mn = (peel(s['init']), e3)
-                        if s['pat']['name'] == 'max':
-                            e3 = Env()
-                            read_block({'stmts': x['stmts'][:x['stmts'].index(s)]}, e3)
-                            mx = (peel(s['init']), e3)
-        if not mn or not mx:
-            run.ob('WIN.bounds', fn, '%s bounds' % name, False, loc(body), 'min / max bindings not found')
+    t = N.tbl(fn)
+    by = {}
+    for cs, l, ef in t:
+        meth = [c.split('::')[-1] for c in cs if c.startswith('method is ')]
+        by.setdefault(meth[0] if len(meth) == 1 else '?', []).append((cs, l, ef))
+    run.ob('WIN.clip', fn, 'three methods', set(by) == {'Quantile', 'Median', 'Sigma'}, fn.loc(),
+           'arms %s' % sorted(by))
+    sym = lambda x: Poly.atom(('sym', x))
+    for name in ('Quantile', 'Median', 'Sigma'):
+        rows = by.get(name, [])
+        leaves = sorted(l for cs, l, ef in rows)
+        clipped = [(cs, _CLIPPED.match(l), ef) for cs, l, ef in rows if _CLIPPED.match(l)]
+        plain = [(cs, l, ef) for cs, l, ef in rows if _PLAIN.match(l)]
+        ok = len(clipped) == 1 and len(clipped) + len(plain) == len(rows)
+        run.ob('WIN.clip', fn, '%s arm returns the clipped f64 view' % name, ok, fn.loc(),
+               'leaves %s' % [l[:90] for l in leaves])
+        if len(clipped) != 1:
+            run.ob('WIN.bounds', fn, '%s bounds' % name, False, fn.loc(), 'no single clipped leaf')
+            continue
+        cs, m, ef = clipped[0]
+        args = _split_args(m.group(1))
+        defs = defs_of(ef)
+        other = {c for c in cs if not c.startswith('method is ')}
+        if len(args) != 2:
+            run.ob('WIN.bounds', fn, '%s bounds' % name, False, fn.loc(), 'vclip arguments %s' % args)
             continue
         if name == 'Quantile':
-            a, b = peel(try_inner(mn[0])), peel(try_inner(mx[0]))
-            ok = a.get('method') == 'vquantile' and b.get('method') == 'vquantile' and \
-                src(peel(a['ch'][0])) == 'self' and src(peel(b['ch'][0])) == 'self'
-            qa = norm(a['ch'][1], mn[1]) if ok else None
-            qb = norm(b['ch'][1], mx[1]) if ok else None
-            ok = ok and qb == Poly.const(1) - qa and src(peel(a['ch'][2])) == src(peel(b['ch'][2]))
-            run.ob('WIN.bounds', fn, 'Quantile bounds q and 1-q', ok, loc(body),
-                   'min = %s ; max = %s' % (src(mn[0])[:60], src(mx[0])[:60]))
+            qa = re.fullmatch(r'self\.vquantile\((.+), QuantileMethod::(\w+)\)\?', args[0])
+            qb = re.fullmatch(r'self\.vquantile\((.+), QuantileMethod::(\w+)\)\?', args[1])
+            ok = bool(qa and qb) and qa.group(2) == qb.group(2) and \
+                parse_poly(qb.group(1), defs) == Poly.const(1) - parse_poly(qa.group(1), defs) and \
+                qa.group(1) == 'method_params.unwrap_or(0.01)' and not other and not plain
+            run.ob('WIN.bounds', fn, 'Quantile bounds q and 1-q', ok, fn.loc(),
+                   'min = %s ; max = %s' % (args[0][:70], args[1][:70]))
+            continue
+        pa, pb = parse_poly(args[0], defs), parse_poly(args[1], defs)
+        # min = c - k*s ; max = c + k*s  <=>  min + max = 2c and max - min = 2ks with one c, k, s
+        k_ = sym('method_params.unwrap_or(3.)')
+        if name == 'Median':
+            centre = sym('self.vmedian()')
+            mad_defs = [v for v in defs.values()
+                        if v == 'self.map(|a0| (a0 - self.vmedian()).abs()).collect_trusted_to_vec().vmedian()']
+            spread_names = [k for k, v in defs.items() if v in mad_defs]
+            spread = sym(spread_names[0]) if spread_names else sym('?')
+            # parse_poly substitutes definitions: compare against the substituted spread
+            spread = parse_poly(spread_names[0], defs) if spread_names else spread
+            gate_ok = other == {'VALID(self.vmedian())'} and len(plain) == 1 and \
+                {c for c in plain[0][0] if not c.startswith('method is ')} == {'!VALID(self.vmedian())'}
+            run.ob('WIN.bounds', fn, 'MAD = median(|x - median|)', bool(mad_defs), fn.loc(),
+                   'spread definitions %s' % [v[:80] for v in defs.values()])
         else:
-            pa, pb = norm(mn[0], Env()), norm(mx[0], Env())
-            # min = c - k*s ; max = c + k*s  <=>  min + max = 2c and max - min = 2ks with one c, k, s
-            s_ = pa + pb
-            d_ = pb - pa
-            centre = 'median' if name == 'Median' else 'mean'
-            spread = 'mad' if name == 'Median' else 'std'
-            sym = lambda x: Poly.atom(('sym', x))
-            ok = s_ == Poly.const(2) * sym(centre) and \
-                d_ == Poly.const(2) * sym('method_params') * sym(spread)
-            run.ob('WIN.bounds', fn, '%s bounds centre -/+ k*spread' % name, ok, loc(body),
-                   'min = %s ; max = %s' % (pa.show(), pb.show()))
-    # MAD definition
-    body = arms.get('Median')
-    if body:
-        s = src(body)
-        ok = 'self.map(|v| (v.cast() - median).abs()).collect_trusted_to_vec().vmedian()' in s and \
-            'let median = self.vmedian()' in s
-        run.ob('WIN.bounds', fn, 'MAD = median(|x - median|)', ok, loc(body), s[:200])
-    body = arms.get('Sigma')
-    if body:
-        s = src(body)
-        ok = 'self.titer().vmean_var(2)' in s and 'let std = var.sqrt()' in s
-        run.ob('WIN.bounds', fn, 'sigma = sqrt(sample variance)', ok, loc(body), s[:160])
-
-
-def try_inner(e):
-    from facts import try_operand
-    t = try_operand(peel(e))
-    return t if t is not None else e
+            mv = [k for k, v in defs.items() if v == 'self.titer().vmean_var(2)']
+            centre = sym(mv[0] + '.0') if mv else sym('?')
+            spread = Poly.atom(('fn', 'sqrt', (sym(mv[0] + '.1').freeze(),))) if mv else sym('?')
+            want_g = {'VALID(%s.0)' % mv[0], 'VALID(%s.1)' % mv[0], '(prelude::EPS < %s.1)' % mv[0]} if mv else set()
+            gate_ok = bool(mv) and other == want_g and len(plain) == 1
+            run.ob('WIN.bounds', fn, 'sigma = sqrt(sample variance)', bool(mv), fn.loc(),
+                   'mean / variance from %s' % [v[:60] for v in defs.values()])
+        ok = (pa + pb) == Poly.const(2) * centre and (pb - pa) == Poly.const(2) * k_ * spread
+        run.ob('WIN.bounds', fn, '%s bounds centre -/+ k*spread' % name, ok and gate_ok, fn.loc(),
+               'min = %s ; max = %s ; clipped under %s' % (pa.show(), pb.show(), sorted(other)))
 
 
 def spearman(run, F):
     fn = F.one('AggValidFinal::vcorr')
-    m = [x for x in walk(fn.hir) if x.get('k') == 'Match' and src(peel(x['ch'][0])) == 'method']
-    ok = len(m) == 1
-    det = ''
-    if ok:
-        arms = {dtree.pat_src(a['pat']).split('::')[-1]: src(a['body']) for a in m[0]['arms']}
-        det = str(arms)
-        ok = arms.get('Pearson') == 'self.titer().vcorr_pearson(other.titer(), min_periods)' and \
-            arms.get('Spearman') == ('let v1_rank = self.vrank(false, false); let v2_rank = '
-                                     'other.vrank(false, false); v1_rank.vcorr_pearson(v2_rank, min_periods)')
-    run.ob('CORR.spearman', fn, 'Spearman = Pearson of average ranks', ok, fn.loc(), det[:300])
+    t = N.tbl(fn)
+    mp = 'min_periods.unwrap_or((self.len() / 2))'
+    want = N.T((['method is CorrMethod::Pearson'], 'self.titer().vcorr_pearson(other.titer(), %s)' % mp, []),
+               (['method is CorrMethod::Spearman'],
+                'self.vrank(false, false).vcorr_pearson(other.vrank(false, false), %s)' % mp, []))
+    run.ob('CORR.spearman', fn, 'Spearman = Pearson of average ranks', t == want, fn.loc(),
+           'table %s' % dtree.show(t))
 
 
 def half_life(run, F):
     fn = F.one('AggValidFinal::half_life')
+    env0 = N.self_env(fn)
+    ft = N.tbl(fn)
+    # the function returns the upper bracket end `hi`; empty input returns 0 before anything else
+    nonempty = [(cs, l, ef) for cs, l, ef in ft if '(0 != self.len())' in cs or '(0 < self.len())' in cs
+                or '(1 <= self.len())' in cs]
+    empty = [(cs, l, ef) for cs, l, ef in ft if (cs, l, ef) not in nonempty]
+    ok_e = len(empty) == 1 and empty[0][1] == '0' and len(nonempty) == 1 and \
+        not any('while' in e for e in empty[0][2]) and \
+        all(dtree.holds(c, {'self.len()': 0}) for c in empty[0][0])
+    run.ob('HL.bracket', fn, 'empty input returns 0', ok_e, fn.loc(),
+           'rows %s' % [(sorted(cs), l) for cs, l, ef in empty])
+    if len(nonempty) != 1 or not re.fullmatch(r'v\d+', nonempty[0][1]):
+        run.ob('HL.bracket', fn, 'bisection loop `while n - last_n > 1`', False, fn.loc(),
+               'no single non-empty path returning a bracket variable')
+        return
+    hi = nonempty[0][1]
+    effs = list(nonempty[0][2])
     whiles = [x for x in walk(fn.hir) if x.get('k') == 'While']
-    bis = [w for w in whiles if src(peel(w['ch'][0])) == '((n - last_n) > 1)']
+    bis = []
+    for w in whiles:
+        en = dtree.env_at(fn.hir, w, env0)
+        c = dtree.conj(w['ch'][0], dict(en))
+        m = re.fullmatch(r'\(1 < \((\w+) - (\w+)\)\)', c[0]) if len(c) == 1 else None
+        if m and m.group(1) == hi:
+            bis.append((w, en, m.group(2)))
     ok = len(bis) == 1
     run.ob('HL.bracket', fn, 'bisection loop `while n - last_n > 1`', ok, fn.loc(),
-           '%d loop(s) with that condition' % len(bis))
+           '%d loop(s) of the form `while hi - lo > 1` on the returned variable' % len(bis))
     if ok:
-        W = bis[0]
-        asg = [x for x in walk(W['ch'][1]) if x.get('k') == 'Assign']
-        lows = [src(peel(a['ch'][1])) for a in asg if src(peel(a['ch'][0])) == 'last_n']
-        ups = [src(peel(a['ch'][1])) for a in asg if src(peel(a['ch'][0])) == 'n']
-        okb = all(v in ('last_n', 'life') for v in lows) and all(v in ('n', 'life') for v in ups) and \
-            bool(lows) and bool(ups)
+        W, en, lo = bis[0]
+        t = dtree.table(W['ch'][1], en)
+        # per path: what is assigned to lo / hi / mid, and the correlation tested
+        mids, corrs = set(), set()
+        rows = []
+        for cs, l, ef in t:
+            asg = {}
+            for e in ef:
+                m = re.match(r'(\w+) (=|:=) (.*)$', e)
+                if m and m.group(1) != m.group(3):
+                    asg.setdefault(m.group(1), []).append(m.group(3))
+            rows.append((cs, asg))
+        # midpoint variable: assigned ((hi + lo) / 2) on every path
+        sorted_pair = '(%s + %s)' % tuple(sorted((hi, lo)))
+        midv = {k for cs, asg in rows for k, v in asg.items() if v == ['(%s / 2)' % sorted_pair]}
+        okmid = len(midv) == 1 and all(any(v == ['(%s / 2)' % sorted_pair] for v in asg.values()) for cs, asg in rows)
+        mid = list(midv)[0] if len(midv) == 1 else '?'
+        run.ob('HL.bracket', fn, 'midpoint', okmid, loc(W), 'midpoint variable %s := (%s / 2)' % (sorted(midv), sorted_pair))
+        corrv = {k for cs, asg in rows for k, v in asg.items()
+                 if len(v) == 1 and re.fullmatch(r'self\.titer\(\)\.vcorr_pearson\(self\.titer\(\)\.vshift\(%s, NULL\), .+\)' % mid, v[0])}
+        okc = len(corrv) == 1
+        corr = list(corrv)[0] if okc else '?'
+        lows = sorted({v for cs, asg in rows for v in asg.get(lo, [])})
+        ups = sorted({v for cs, asg in rows for v in asg.get(hi, [])})
+        okb = okc and all(v == mid for v in lows) and all(v == mid for v in ups) and bool(lows) and bool(ups)
         run.ob('HL.bracket', fn, 'bracket ends move only to the midpoint', okb, loc(W),
-               'last_n <- %s ; n <- %s' % (lows, ups))
-        mids = [src(peel(a['ch'][1])) for a in asg if src(peel(a['ch'][0])) == 'life']
-        run.ob('HL.bracket', fn, 'midpoint', mids == ['((n + last_n) / 2)'] or mids == ['((last_n + n) / 2)'],
-               loc(W), 'life <- %s' % mids)
-        # which branch moves which end
-        t = dtree.table(W['ch'][1], {})
-        # the rows partition on the sign of corr - 0.5: select the row each region falls in
+               'lo <- %s ; hi <- %s ; correlation at the midpoint lag: %s' % (lows, ups, okc))
+        # which branch moves which end: decided on corr in {below, at, above 0.5}
         mv = {}
         for region, val in (('below', 0.25), ('at', 0.5), ('above', 0.75)):
-            for cs, l, ef in t:
-                cc = [c for c in cs if 'corr' in c]
-                try:
-                    hit = all(eval(c, {'__builtins__': {}}, {'corr': val}) for c in cc)
-                except Exception:
-                    hit = False
-                if hit:
-                    mv.setdefault(region, []).append(
-                        sorted(e for e in ef if e.startswith(('n =', 'last_n =')) and
-                               e not in ('n = n', 'last_n = last_n')))
-        okm = mv.get('below') == [['n = life']] and mv.get('above') == [['last_n = life']] and \
-            mv.get('at') == [['n = life']]
+            for cs, asg in rows:
+                cc = [c for c in cs if re.search(r'\b%s\b' % corr, c)]
+                vals = [dtree.holds(c.replace(corr, 'CORR').replace('0.5', '2').replace('CORR', {0.25: '1', 0.5: '2', 0.75: '3'}[val]), {}) for c in cc]
+                if vals and all(vals):
+                    mv.setdefault(region, []).append(sorted(k for k in asg if k in (lo, hi)))
+        okm = mv.get('below') == [[hi]] and mv.get('above') == [[lo]] and mv.get('at') == [[hi]]
         run.ob('HL.bracket', fn, 'below 0.5 lowers the upper end, above raises the lower end', okm,
-               loc(W), str(mv))
-    s = src(fn.hir)
-    run.ob('HL.bracket', fn, 'result capped at len - 1', 'n = n.min((self.len() - 1))' in s and
-           s.index('n = n.min((self.len() - 1))') < s.index('while ((n - last_n) > 1)'), fn.loc(),
-           'cap before the bisection')
-    run.ob('HL.bracket', fn, 'empty input returns 0', 'if (len == 0) { return 0; }' in s, fn.loc(), s[:120])
+               loc(W), 'assigned per region: %s (lo=%s hi=%s)' % (mv, lo, hi))
+        # cap before the bisection
+        cap = '%s = %s.min((self.len() - 1))' % (hi, hi)
+        loops_at = [i for i, e in enumerate(effs) if e.startswith('while (1 < (%s - %s))' % (hi, lo))]
+        okcap = cap in effs and loops_at and effs.index(cap) < loops_at[0]
+        run.ob('HL.bracket', fn, 'result capped at len - 1', bool(okcap), fn.loc(), 'cap before the bisection')
     # panics
     G = panics.PanicGraph(F)
     audited = [
